@@ -106,8 +106,17 @@ def run_one(sh, case, driver='generated'):
     res = None
     try:
         with quiet():
-            res = compute_features_2d(np.array(sigs, copy=True), fs, f_range, compute_features_kwargs=copy.deepcopy(kw),
-                                      axis=None, return_samples=True, n_jobs=1)
+            if case.get('api') == 'obj' and isinstance(kw, dict):
+                from bycycle import BycycleGroup
+                bg = BycycleGroup(center_extrema=kw.get('center_extrema', 'peak'), burst_method=kw.get('burst_method', 'cycles'),
+                                  burst_kwargs=copy.deepcopy(kw.get('burst_kwargs')), thresholds=copy.deepcopy(kw.get('threshold_kwargs')),
+                                  find_extrema_kwargs=copy.deepcopy(kw.get('find_extrema_kwargs')))
+                bg.fit(np.array(sigs, copy=True), fs, f_range, axis=None, n_jobs=1)
+                res = bg.df_features
+                sh.note('via_BycycleGroup')
+            else:
+                res = compute_features_2d(np.array(sigs, copy=True), fs, f_range, compute_features_kwargs=copy.deepcopy(kw),
+                                          axis=None, return_samples=True, n_jobs=1)
     except Exception as e:
         vs.append({'mechanism': attach.exc_mechanism(e),
                    'message': 'compute_features_2d(axis=None) raised %r; flattened analysis has %d cycles, %d epochs of %d samples'
@@ -272,7 +281,8 @@ def make_case(rng):
             if rng.random() < 0.25:
                 del o['threshold_kwargs']          # this epoch uses the documented defaults
             kw.append(o)
-    return dict(sigs=sigs, fs=fs, f_range=(lo, hi), kwargs=kw, aligned=bool(aligned), family=fam)
+    return dict(sigs=sigs, fs=fs, f_range=(lo, hi), kwargs=kw, aligned=bool(aligned), family=fam,
+                api='obj' if (isinstance(kw, dict) and rng.random() < 0.25) else 'func')
 
 
 def run(sh):
